@@ -416,6 +416,133 @@ static void op_zero_chain(void) {
   }
 }
 
+/* ------------------------------------------------------------------ C06: malformed / oversized requests
+   (entry point x argument class); values beyond 2^31 are logged by class + description only */
+static const char* bad_desc = "";
+static size_t bad_size_value(void) {   /* sizes beyond MI_MAX_ALLOC_SIZE = PTRDIFF_MAX */
+  static const size_t ks[] = {0, 1, 7, 8, 9, 15, 16, 17, 31, 32, 63, 64, 4095, 4096, 4097, 65535, 65536, (1u << 25) - 1, (1u << 25)};
+  size_t k = ks[vf_randn(sizeof(ks) / sizeof(ks[0]))];
+  switch (vf_randn(5)) {
+    case 0: bad_desc = "PTRDIFF_MAX+1+k"; return (size_t)PTRDIFF_MAX + 1 + k;
+    case 1: bad_desc = "SIZE_MAX-k"; return SIZE_MAX - k;
+    case 2: bad_desc = "2^63+2^32+k"; return ((size_t)1 << 63) + ((size_t)1 << 32) + k;
+    case 3: bad_desc = "SIZE_MAX/2+2+k"; return SIZE_MAX / 2 + 2 + k;
+    default: bad_desc = "3*2^62+k"; return ((size_t)3 << 62) + k;
+  }
+}
+static void bad_count_size(size_t* cnt, size_t* sz, const char** cls) {
+  static const size_t szs[] = {2, 3, 8, 24, 100, 4096, 65536};
+  size_t z = szs[vf_randn(7)];
+  switch (vf_randn(7)) {
+    case 0: *cnt = SIZE_MAX; *sz = z; *cls = "overflow"; bad_desc = "SIZE_MAX*sz"; break;
+    case 1: *cnt = (size_t)1 << 32; *sz = (size_t)1 << 32; *cls = "overflow"; bad_desc = "2^32*2^32"; break;
+    case 2: *cnt = SIZE_MAX / z + 1 + vf_randn(3); *sz = z; *cls = "overflow"; bad_desc = "(SIZE_MAX/sz+1+k)*sz"; break;
+    case 3: *cnt = (size_t)1 << 63; *sz = 2; *cls = "overflow"; bad_desc = "2^63*2"; break;
+    case 4: *cnt = z; *sz = SIZE_MAX / z + 1; *cls = "overflow"; bad_desc = "sz*(SIZE_MAX/sz+1)"; break;
+    case 5: *cnt = SIZE_MAX / z; *sz = z; *cls = "toolarge"; bad_desc = "(SIZE_MAX/sz)*sz"; break;      /* no overflow, but > PTRDIFF_MAX */
+    default: *cnt = ((size_t)1 << 62); *sz = 3; *cls = "toolarge"; bad_desc = "2^62*3"; break;
+  }
+}
+static size_t bad_align_value(void) {
+  static const size_t as[] = {0, 3, 5, 6, 7, 12, 24, 48, 1000, 4097, 65537, (size_t)3 << 20};
+  bad_desc = "alignment not a power of two";
+  return as[vf_randn(sizeof(as) / sizeof(as[0]))];
+}
+static void op_bad(void) {
+  int kind = (int)vf_randn(3);           /* 0 = size too large, 1 = count*size, 2 = bad alignment */
+  int re = (int)vf_randn(3) == 0;        /* re-allocation form on a live block */
+  int s = re ? pick_live() : -1;
+  if (re && s < 0) re = 0;
+  size_t n = 0, cnt = 0, sz = 0, al = 0, off = 0; const char* cls = "toolarge"; const char* name = "malloc";
+  void* q = NULL; int rc = 0, outkeep = 1; int zero = 0;
+  int hidx = pick_heap_idx(); mi_heap_t* hp = hps[hidx].hp; int useheap = 0;
+  int ns = -1; blk_t old; memset(&old, 0, sizeof(old));
+  if (re) old = slots[s];
+  if (kind == 0) n = bad_size_value();
+  else if (kind == 1) bad_count_size(&cnt, &sz, &cls);
+  else { al = bad_align_value(); n = 1 + (size_t)vf_randn(5000); cls = "badalign"; }
+  int v = (int)vf_randn(12);
+  /* choose the entry point; log the call; perform it */
+  #define BEGIN(nm, uh, zr) name = nm; useheap = uh; zero = zr; \
+      log_call_begin(name, useheap ? hps[hidx].id : 0, re ? old.id : 0, (long)(n > 0x3FFFFFFF ? -1 : (long)n), (al > 0x3FFFFFFF ? 0x3FFFFFFF : al), off, zero, cls, 0, 0); \
+      vf_logf(",\"arg\":\"%s\"", bad_desc); log_obs(s, -1, 1); log_call_end(); if (re) clear_block(s); errno = 0;
+  if (!re) {
+    if (kind == 0) {
+      switch (v % 9) {
+        case 0: BEGIN("malloc", 0, 0) q = mi_malloc(n); break;
+        case 1: BEGIN("zalloc", 0, 1) q = mi_zalloc(n); break;
+        case 2: BEGIN("heap_malloc", 1, 0) q = mi_heap_malloc(hp, n); break;
+        case 3: BEGIN("heap_zalloc", 1, 1) q = mi_heap_zalloc(hp, n); break;
+        case 4: BEGIN("valloc", 0, 0) q = mi_valloc(n); break;
+        case 5: BEGIN("pvalloc", 0, 0) q = mi_pvalloc(n); break;
+        case 6: BEGIN("new_nothrow", 0, 0) q = mi_new_nothrow(n); break;
+        case 7: al = (size_t)1 << vf_randn(13); BEGIN("malloc_aligned", 0, 0) q = mi_malloc_aligned(n, al); break;
+        default: al = 8u << vf_randn(8); cls = "enomem"; BEGIN("posix_memalign", 0, 0)
+                 { void* sent = (void*)(uintptr_t)0x5EED5EED; void* pp = sent; rc = mi_posix_memalign(&pp, al, n); outkeep = (pp == sent); q = (rc == 0 ? pp : NULL); } break;
+      }
+    } else if (kind == 1) {
+      switch (v % 6) {
+        case 0: BEGIN("calloc", 0, 1) q = mi_calloc(cnt, sz); break;
+        case 1: BEGIN("mallocn", 0, 0) q = mi_mallocn(cnt, sz); break;
+        case 2: BEGIN("heap_calloc", 1, 1) q = mi_heap_calloc(hp, cnt, sz); break;
+        case 3: BEGIN("heap_mallocn", 1, 0) q = mi_heap_mallocn(hp, cnt, sz); break;
+        case 4: al = 64; BEGIN("calloc_aligned", 0, 1) q = mi_calloc_aligned(cnt, sz, al); break;
+        default: al = 32; BEGIN("heap_calloc_aligned", 1, 1) q = mi_heap_calloc_aligned(hp, cnt, sz, al); break;
+      }
+    } else {
+      switch (v % 7) {
+        case 0: BEGIN("malloc_aligned", 0, 0) q = mi_malloc_aligned(n, al); break;
+        case 1: BEGIN("zalloc_aligned", 0, 1) q = mi_zalloc_aligned(n, al); break;
+        case 2: off = 8; BEGIN("malloc_aligned_at", 0, 0) q = mi_malloc_aligned_at(n, al, off); break;
+        case 3: BEGIN("memalign", 0, 0) q = mi_memalign(al, n); break;
+        case 4: BEGIN("aligned_alloc", 0, 0) q = mi_aligned_alloc(al, n); break;
+        case 5: BEGIN("heap_malloc_aligned", 1, 0) q = mi_heap_malloc_aligned(hp, n, al); break;
+        default: if (vf_randn(2)) al = (size_t)1 << vf_randn(3); cls = "einval"; BEGIN("posix_memalign", 0, 0)   /* also powers of two below sizeof(void*) */
+                 { void* sent = (void*)(uintptr_t)0x5EED5EED; void* pp = sent; rc = mi_posix_memalign(&pp, al, n); outkeep = (pp == sent); q = (rc == 0 ? pp : NULL); } break;
+      }
+    }
+  } else {
+    void* p = old.p;
+    if (kind == 0) {
+      switch (v % 6) {
+        case 0: BEGIN("realloc", 0, 0) q = mi_realloc(p, n); break;
+        case 1: BEGIN("rezalloc", 0, 1) q = mi_rezalloc(p, n); break;
+        case 2: BEGIN("heap_realloc", 1, 0) q = mi_heap_realloc(hp, p, n); break;
+        case 3: BEGIN("reallocf", 0, 0) q = mi_reallocf(p, n); break;
+        case 4: al = 64; BEGIN("realloc_aligned", 0, 0) q = mi_realloc_aligned(p, n, al); break;
+        default: BEGIN("heap_rezalloc", 1, 1) q = mi_heap_rezalloc(hp, p, n); break;
+      }
+    } else if (kind == 1) {
+      switch (v % 7) {
+        case 0: BEGIN("reallocn", 0, 0) q = mi_reallocn(p, cnt, sz); break;
+        case 1: BEGIN("recalloc", 0, 1) q = mi_recalloc(p, cnt, sz); break;
+        case 2: BEGIN("reallocarray", 0, 0) q = mi_reallocarray(p, cnt, sz); break;
+        case 3: BEGIN("reallocarr", 0, 0) { void* pp = p; rc = mi_reallocarr(&pp, cnt, sz); q = (rc == 0 ? pp : NULL); } break;
+        case 4: BEGIN("heap_reallocn", 1, 0) q = mi_heap_reallocn(hp, p, cnt, sz); break;
+        case 5: BEGIN("heap_recalloc", 1, 1) q = mi_heap_recalloc(hp, p, cnt, sz); break;
+        default: al = 16; BEGIN("recalloc_aligned", 0, 1) q = mi_recalloc_aligned(p, cnt, sz, al); break;
+      }
+    } else {
+      switch (v % 4) {
+        case 0: BEGIN("realloc_aligned", 0, 0) q = mi_realloc_aligned(p, n, al); break;
+        case 1: BEGIN("rezalloc_aligned", 0, 1) q = mi_rezalloc_aligned(p, n, al); break;
+        case 2: off = 8; BEGIN("realloc_aligned_at", 0, 0) q = mi_realloc_aligned_at(p, n, al, off); break;
+        default: BEGIN("heap_realloc_aligned", 1, 0) q = mi_heap_realloc_aligned(hp, p, n, al); break;
+      }
+    }
+  }
+  #undef BEGIN
+  ret_t r; memset(&r, 0, sizeof(r)); r.null = (q == NULL); r.rc = rc; r.err = errno; r.outkeep = outkeep;
+  if (q == NULL) {
+    if (re && strcmp(name, "reallocf") != 0) { slots[s] = old; nslots_used++; if (old.big) big_budget += old.us; r.keep = vf_match(old.p, (uint32_t)old.id, old.gen, old.wr, old.wr); }
+  } else {   /* unexpected success: register the block so the rest of the trace stays meaningful */
+    ns = re ? s : pick_free_slot();
+    if (ns >= 0) { size_t rq = (n > 0x3FFFFFFF ? 0x3FFFFFFF : n); set_block(ns, q, rq, useheap ? hps[hidx].id : hps[dflt_idx].id, 0, 0, 0, 2); slots[ns].wr = 0;
+                   r.id = slots[ns].id; r.a = q; r.us = (slots[ns].us > 0x3FFFFFFF ? 0x3FFFFFFF : slots[ns].us); r.gen = slots[ns].gen; r.wr = 0; }
+  }
+  log_ret_begin(name, &r); log_obs(re && q == NULL && strcmp(name, "reallocf") != 0 ? s : -1, -1, 3); log_ret_end();
+}
+
 /* ------------------------------------------------------------------ write / queries / expand */
 static void op_write(void) {
   int s = pick_live(); if (s < 0) return;
@@ -655,6 +782,7 @@ int main(int argc, char** argv) {
   else if (!strcmp(profile, "c04")) { w_chain = 25; w_alloc = 30; w_free = 30; w_realloc = 5; w_write = 8; fill_mode_default = 0; }
   else if (!strcmp(profile, "c05")) { w_realloc = 45; w_alloc = 25; w_free = 15; w_expand = 8; }
   else if (!strcmp(profile, "c10")) { w_heap = 20; w_query = 15; w_alloc = 35; w_free = 15; w_realloc = 8; }
+  else if (!strcmp(profile, "c06")) { w_bad = 40; w_alloc = 30; w_free = 20; w_realloc = 8; w_visit = 4; }
   else if (!strcmp(profile, "c12")) { w_visit = 12; w_heap = 8; w_collect = 2; w_alloc = 40; w_free = 30; }
   else { fprintf(stderr, "unknown profile %s\n", profile); return 2; }
 
@@ -664,7 +792,7 @@ int main(int argc, char** argv) {
   vf_log_line_end();
 
   if (progpath) { run_program(progpath); ops = 0; }
-  int total = w_alloc + w_free + w_realloc + w_write + w_query + w_heap + w_visit + w_collect + w_expand + w_chain;
+  int total = w_alloc + w_free + w_realloc + w_write + w_query + w_heap + w_visit + w_collect + w_expand + w_chain + w_bad;
   for (nops = 0; nops < ops; nops++) {
     int r = (int)vf_randn((uint64_t)total);
     if (nops % 500 == 499) op_checkall();
@@ -681,6 +809,7 @@ int main(int argc, char** argv) {
     if (r < w_visit) { op_collect(); op_visit(pick_heap_idx(), vf_randn(4) == 0 ? 1 + (int)vf_randn(5) : 0); continue; } r -= w_visit;
     if (r < w_collect) { op_collect(); continue; } r -= w_collect;
     if (r < w_expand) { op_expand(); continue; } r -= w_expand;
+    if (r < w_bad) { op_bad(); continue; } r -= w_bad;
     op_zero_chain();
   }
   op_checkall();
